@@ -275,6 +275,10 @@ class Central:
         rsp = unhx(r.get("rsp", "-"))
         if rsp[:1] == [3] and self.stage == 2 and self.sc:
             self.stage = 3
+        elif rsp[:1] == [0x0d]:
+            self.stage = 5
+        elif rsp[:1] == [5]:
+            self.stage = 0
         return rsp
 
     def lesc_random(self, mutate=None):
@@ -301,6 +305,14 @@ class Central:
             self.stage = 5
         elif rsp[:1] == [5]:
             self.stage = 0
+        elif not rsp and r.get("st", "").startswith("user_wait"):
+            self.held = True       # taken while the user is asked: the answer and a poll come next
+
+    def peer_failed(self):
+        """the central gives up: Pairing Failed from the peer (any state), then a key lookup"""
+        self.do("pdu 05" + hx([self.rng.choice([0x01, 0x03, 0x05, 0x08, 0x0b])]))
+        self.stage, self.req = 0, None
+        self.do("findkey 0 0")
 
     def next_in_order(self, mutate=None):
         if self.stage == 0 or self.req is None:
@@ -319,6 +331,10 @@ class Central:
         if self.stage == 3:
             return self.lesc_random(mutate)
         if self.stage == 4:
+            if getattr(self, "held", False):
+                self.held = False
+                self.do("answer %d" % (self.rng.random() < 0.85))
+                return self.poll()
             if self.rng.random() < 0.3:
                 self.do("answer %d" % (self.rng.random() < 0.8))
                 if self.rng.random() < 0.5:
@@ -342,9 +358,11 @@ class Central:
             self.do("pdu -")
         elif r < 0.8 and self.ops and any(o.startswith("pdu") for o in self.ops):
             self.do(self.rng.choice([o for o in self.ops if o.startswith("pdu")]))   # replay
-        elif r < 0.9:
+        elif r < 0.88:
             self.do("conn")
             self.stage, self.req = 0, None
+        elif r < 0.93:
+            self.peer_failed()
         else:
             self.do("answer %d" % self.rng.randrange(2))
         # the central does not know whether that was accepted: keep its stage, a later in-order
@@ -380,6 +398,9 @@ def gen_session(live, rng, variant=None, ioname=None, bond=None, length=None, p_
             c.next_in_order()
             if c.stage in (3, 5) and rng.random() < 0.6:
                 c.findkey(known)
+                if c.stage == (5 if c.sc else 3) and rng.random() < 0.15:
+                    c.peer_failed()      # Pairing Failed from the peer after pairing completed
+                    continue
                 if rng.random() < 0.5:
                     c.do("enc 1")
                     for _ in range(rng.randrange(1, 4)):
@@ -415,8 +436,14 @@ def gen_enumerated(live, rng, variant, ioname, bond, symbols, usermode):
             c.poll()
         elif sym == "yes":
             c.do("answer 1")
+        elif sym == "no":
+            c.do("answer 0")
         elif sym == "unk":
             c.do("pdu 0b")
+        elif sym == "pf":
+            c.do("pdu 0508")      # Pairing Failed (unspecified reason) from the peer
+        elif sym == "key":
+            c.do("findkey 0 0")
         elif sym == "enc":
             c.do("enc 1")
     c.do("findkey 0 0")
@@ -447,14 +474,18 @@ class Monitor:
         self.sent = {6: 0, 7: 0}
         self.disp_at_confirm = None
         self.env_at_request = None
+        self.after_peer_failed = False   # the last PDU was the peer's Pairing Failed
 
     def abort(self):
         self.acc, self.kind, self.confirm_sent, self.completed_key = [], None, False, None
 
     def run(self, ops, outs):
+        self.cur_state = "idle"
         for k, (op, out) in enumerate(zip(ops, outs)):
             w = op.split()
             f = parse_fields(out)
+            self.state_before = self.cur_state
+            self.cur_state = "idle" if w[0] in ("reset", "conn") else f.get("st", self.cur_state)
             if w[0] == "reset":
                 self.variant, self.ioname, self.bond = w[1], w[2], w[3] == "1"
                 self.ctr, self.db = 0, []
@@ -488,6 +519,15 @@ class Monitor:
         # whatever follows a completed pairing is not in order: the PDU is either rejected (pairing
         # returns to idle) or starts / continues another attempt -- no key from the old pairing
         self.completed_key = None
+        self.after_peer_failed = pdu[:1] == [5]
+        if self.after_peer_failed:
+            # Pairing Failed from the peer, in whatever state: pairing is over, the key is withdrawn
+            self.count("peer_pairing_failed_in_" + self.state_before)
+            if f.get("st") != "idle":
+                self.hit("C32", "C32:peer-pairing-failed-not-idle:" + self.state_before,
+                         "Pairing Failed %s received in %s leaves state %s" % (hx(pdu), self.state_before, f.get("st")), k)
+                self.hit("C33", "C33:pairing-not-ended-by-peer-pairing-failed:" + self.state_before,
+                         "Pairing Failed %s received in %s leaves state %s" % (hx(pdu), self.state_before, f.get("st")), k)
         if rsp[:1] == [5]:
             self.count("pdu_rejected")
             if len(rsp) != 2 or f.get("st") != "idle":
@@ -508,7 +548,8 @@ class Monitor:
             self.abort()
             return
         if not rsp:
-            self.count("dhkey_dropped_while_waiting")
+            # a DHKey check taken while the user is asked: Eb may follow from l2cap_output
+            self.count("dhkey_taken_while_user_is_asked")
             self.acc.append((pdu, rsp))
             return
         self.acc.append((pdu, rsp))
@@ -620,10 +661,15 @@ class Monitor:
         mac, ltk, na, nb, iocaps = v
         ea = t_f6(mac, na, nb, ZERO16, iocaps, REMOTE, LOCAL)
         if pdu is None:
-            dropped = [p for p, r in self.acc[3:] if p[0] == 0x0d]
-            self.hit("C32", "C32:dhkey-check-sent-unverified:l2cap_output-in-user_response_success",
-                     "peripheral sent its DHKey check %s from l2cap_output after the user's yes; the central's DHKey check was %s"
-                     % (hx(rsp), "never received" if not dropped else "dropped unverified (%s, correct would be %s)" % (hx(dropped[-1][1:]), hx(ea))), k)
+            # sent from l2cap_output (after the user's yes): only if the DHKey check accepted last in
+            # this attempt is the right one
+            taken = [p for p, r in self.acc[3:] if p[0] == 0x0d]
+            if not taken or taken[-1][1:] != ea:
+                self.hit("C32", "C32:dhkey-check-sent-unverified:l2cap_output-in-user_response_success",
+                         "peripheral sent its DHKey check %s from l2cap_output after the user's yes; the central's DHKey check was %s"
+                         % (hx(rsp), "never received" if not taken else "dropped unverified (%s, correct would be %s)" % (hx(taken[-1][1:]), hx(ea))), k)
+            else:
+                self.count("dhkey_verified")
             self.count("dhkey_sent_from_output")
         elif pdu[1:] != ea:
             self.hit("C32", "C32:dhkey-check-sent-after-wrong-check", "DHKey check %s answered although Ea is %s" % (hx(pdu[1:]), hx(ea)), k)
@@ -667,7 +713,9 @@ class Monitor:
                         break
         self.count("findkey_expect_" + src)
         if got != exp:
-            if got is not None and exp is None:
+            if got is not None and exp is None and self.after_peer_failed:
+                key = "C33:key-offered-after-peer-pairing-failed"
+            elif got is not None and exp is None:
                 key = "C33:key-offered-without-pairing-or-bond"
             elif got is None:
                 key = "C33:key-not-offered:" + src
@@ -737,6 +785,25 @@ ENUM = {
 }
 
 
+# canonical complete pairings per (variant, io, user mode): for every prefix the peer's Pairing
+# Failed is sent (-> opcode 05 is received in every pairing state) and the key looked up
+WALKS = [
+    ("legacy", "none", "async", ["req", "conf", "rand", "key"]),
+    ("legacy", "dispkbd", "async", ["req", "conf", "rand", "key"]),
+    ("lesc", "none", "async", ["reqsc", "pk", "out", "rand", "dh", "key"]),
+    ("lesc", "dispyn", "async", ["reqsc", "pk", "out", "rand", "dh", "yes", "out", "key"]),
+    ("lesc", "dispyn", "async", ["reqsc", "pk", "out", "rand", "yes", "dh", "key"]),
+    ("lesc", "dispyn", "async", ["reqsc", "pk", "out", "rand", "no"]),
+    ("lesc", "dispyn", "async", ["reqsc", "pk", "out", "rand", "dh", "no"]),
+    ("lesc", "dispyn", "sync1", ["reqsc", "pk", "out", "rand", "out", "dh", "key"]),
+    ("both", "dispyn", "async", ["req", "conf", "rand", "key"]),
+    ("both", "dispyn", "async", ["reqsc", "pk", "out", "rand", "dh", "yes", "out", "key"]),
+    ("both", "dispyn", "async", ["reqsc", "pk", "out", "rand", "yes", "dh", "key"]),
+    ("both", "dispyn", "async", ["reqsc", "pk", "out", "rand", "dh", "no"]),
+    ("both", "none", "async", ["reqsc", "pk", "out", "rand", "dh", "key"]),
+]
+
+
 PREFIXES = {
     "legacy": [(["req", "conf"], "dispkbd", "async")],
     "lesc": [(["reqsc", "pk", "out", "rand"], "dispyn", "async"), (["reqsc", "pk", "out", "rand"], "dispyn", "sync1")],
@@ -773,6 +840,12 @@ def make_sessions(ctx, pid):
             for prefix, ioname, mode in PREFIXES[variant]:
                 for seq in itertools.product(syms, repeat=4 if ctx.thorough else 3):
                     sessions.append(gen_enumerated(live, rng, variant, ioname, True, tuple(prefix) + seq, mode))
+                    enumerated += 1
+        for variant, ioname, mode, walk in WALKS:
+            # managers without bonding data base exist for `none` and `dispyn` only
+            for bond in ((False, True) if ioname in ("none", "dispyn") else (True,)):
+                for k in range(len(walk) + 1):
+                    sessions.append(gen_enumerated(live, rng, variant, ioname, bond, tuple(walk[:k]) + ("pf",), mode))
                     enumerated += 1
     finally:
         live.close()
@@ -827,25 +900,25 @@ COMMON = dict(
     assumptions=["tool box functions are stand-ins (abstract parameters in the theorems); cryptographic strength is out of scope (C37)",
                  "one connection, one security manager object; the bonding data base is the harness' list (most recent bond wins)",
                  "connection data is value-initialised as in link_layer.hpp (`connection_data_ = connection_data_t()`)",
-                 "yes_no_response() is only called in user_response_wait (it asserts that)"],
+                 "yes_no_response() is only called while the user is asked (user_response_wait / user_response_wait_dhkey_verified; it asserts that)"],
 )
 
 T = "BluetoeModel.Sm."
 PROPS = {
     "C32": dict(COMMON,
         theorems=[T + "accepted_only_in_order", T + "accepted_language", T + "else_failed_and_idle", T + "srand_after_confirm_check",
-                  T + "dhkey_after_check_partial", T + "dhkey_after_check_without_numeric_comparison",
+                  T + "dhkey_after_check_full", T + "lastDhkey_is_received",
                   T + "l2capInput_spec", T + "l2capOutput_spec", T + "inv_step"],
-        witnesses=[T + "dhkey_after_check_witness"],
         run=run_prop("C32"),
-        level_text="accepted_only_in_order / accepted_language / else_failed_and_idle: for every variant, IO configuration, state and PDU a PDU is either accepted at its place in the protocol order (table `AcceptedAt`) or answered by Pairing Failed with the state idle; srand_after_confirm_check: the legacy Pairing Random is only sent when c1(tk, mrand, p1, p2) equals the stored confirm value, which is the last received one. dhkey_after_check_full is FALSE (witness theorem, replayed on the real code): the DHKey check is sent unverified from l2cap_output in user_response_success; dhkey_after_check_partial proves that this is the only way.",
+        level_text="accepted_only_in_order / accepted_language / else_failed_and_idle: for every variant, IO configuration, state and PDU a PDU is either accepted at its place in the protocol order (table `AcceptedAt`) or answered by Pairing Failed with the state idle; srand_after_confirm_check: the legacy Pairing Random is only sent when c1(tk, mrand, p1, p2) equals the stored confirm value, which is the last received one. dhkey_after_check_full (proved for the code with fix sm-01): every DHKey check the peripheral sends answers a DHKey check PDU equal to Ea, or is sent by l2cap_output after the DHKey check accepted last in this attempt (ghost, recorded from the PDUs) equalled Ea. On the code without the fix the check reports C32:dhkey-check-sent-unverified:l2cap_output-in-user_response_success (corpus/C32/dhkey_unverified_async.ops, dhkey_before_check_sync_yes.ops).",
         level_note="Trusted: Lean kernel + standard axioms; model = code as far as the differential check samples it (adaptive scripted central + small-scope enumeration); unions in security_connection_data are modelled as separate fields (all reads are guarded by the pairing state).",
     ),
     "C33": dict(COMMON,
-        theorems=[T + "key_offered_iff", T + "offered_key_is_pairing_key", T + "local_key_iff_completed"],
+        theorems=[T + "key_offered_iff", T + "offered_key_is_pairing_key", T + "local_key_iff_completed", T + "keyPair_is_sent",
+                  T + "any_other_pdu_withdraws_key", T + "inv_step"],
         run=run_prop("C33"),
-        level_text="key_offered_iff: in every history find_key(ediv, rand) offers a key iff the ghost `pairing completed and nothing happened since` holds with ediv = rand = 0, or the bonding data base has an entry; offered_key_is_pairing_key: the locally offered key is s1(tk, srand, mrand) / the f5 LTK of exactly the values exchanged in the completing step.",
-        level_note="The ghost is computed from the I/O trace (responses 04 after an accepted confirm, 0d) and the secrets of the state before the completing step.",
+        level_text="key_offered_iff: in every history find_key(ediv, rand) offers a key iff the ghost `pairing completed and nothing happened since` holds with ediv = rand = 0, or the bonding data base has an entry; offered_key_is_pairing_key (history theorem): after every history the locally offered key is the key of the last completed pairing on this connection, nothing having happened to pairing since: s1(tk, srand sent, mrand received) / the f5 LTK of the public key and nonce received and the key pair and nonce sent in that attempt (ghost = fold over the PDUs and responses of the history); any_other_pdu_withdraws_key: a PDU with any other opcode, e.g. the peer's Pairing Failed 05, in any state ends pairing and withdraws the key.",
+        level_note="The ghost is computed from the I/O trace (payloads of accepted public key / random / DHKey check PDUs and of the responses); the only secrets it uses are the temporary key and which key pair generate_keys() returned at the public key step.",
     ),
     "C34": dict(COMMON,
         theorems=[T + "distribution_only_encrypted", T + "each_item_once_per_pairing", T + "only_after_completed"],
